@@ -1130,10 +1130,15 @@ impl Kanata {
         if self.override_release_on_activation {
             for removed in self.override_states.removed_oscs() {
                 if !removed.is_modifier() {
+                    let states_before = layout.states.len();
                     layout.states.retain(|s| {
                         s.release_state(ReleasableState::KeyCode(removed.into()))
                             .is_some()
                     });
+                    if layout.states.len() != states_before {
+                        // The key list changes in the next tick; do not report idle before that.
+                        self.last_tick_had_activity = true;
+                    }
                 }
             }
         }
